@@ -260,6 +260,42 @@ def _unstack_order(chk, rule="MIRROR.state.stack.order"):
                       "unsorted feature coordinate, inverse_transform returns it ascending and transform() refuses that very reconstruction ('different coordinates')")
 
 
+def _dataset_unstack_scope(chk, rule="MIRROR.state.dataset.unstack_scope"):
+    """The inverse of the Dataset stacking un-stacks the `feature` dimension and nothing else.  A bare ``.unstack()`` splits
+    EVERY MultiIndex of the array - also the user's own sample MultiIndex, which a reconstruction carries - and merges the
+    level tables of variables with different dimension sets (a variable lacking a dimension has level code -1 there, which
+    the blanket unstack writes at the last label of that dimension: values of other variables are overwritten by NaN);
+    ``to_unstacked_dataset`` additionally squeezes every dimension of length one (a reconstruction of one sample, one mode).
+    Outside a legacy fallback (guarded by the absence of the layout recorded at fit) the Dataset path names the dimension
+    it un-stacks."""
+    pm = chk.pm
+    st = pm.cls("xeofs.preprocessing.stacker.Stacker")
+    from .common import class_closure, effective_guards
+    n = 0
+    seen = set()
+    for mname in ("_unstack_to_dataset_data", "_unstack_to_dataset_components"):
+        m = st.methods.get(mname)
+        chk.require(m is not None, f"Stacker.{mname} vanished")
+        for g in class_closure(pm, st, m):
+            gf = FuncFacts.of(g)
+            for c in calls_in(g):
+                if not (isinstance(c.func, ast.Attribute) and c.func.attr in ("unstack", "to_unstacked_dataset")) or id(c) in seen:
+                    continue
+                seen.add(id(c))
+                blanket = c.func.attr == "unstack" and not c.args and not c.keywords
+                squeezes = c.func.attr == "to_unstacked_dataset"
+                if not (blanket or squeezes):
+                    continue
+                n += 1
+                legacy = any(is_self_attr(x) and not pol for t, pol, _ in effective_guards(gf, c) for x in ([t] if is_self_attr(t) else [])) or \
+                    any(isinstance(t, ast.UnaryOp) and isinstance(t.op, ast.Not) and is_self_attr(t.operand) and pol for t, pol, _ in effective_guards(gf, c))
+                chk.check(legacy, rule, g, c, construct=f"{g.name}: `{norm(c)[-40:]}` only in the legacy fallback",
+                          why=f"{g.qualname} rebuilds the Dataset with `{norm(c)[-60:]}`: " + ("a bare unstack() splits every MultiIndex (the user's sample MultiIndex included) and merges the "
+                              "level tables of variables with different dimension sets" if blanket else "to_unstacked_dataset squeezes every dimension of length one (one sample, one mode)") +
+                              " - reconstructions and components of Dataset-fitted models come back with other dimensions or with values at the wrong labels")
+    chk.ok(rule, st.qualname, None, construct=f"<blanket unstack / to_unstacked_dataset calls on the Dataset inverse path: {n}>", nontrivial=False)
+
+
 def _stacker(chk):
     pm = chk.pm
     st = pm.cls("xeofs.preprocessing.stacker.Stacker")
@@ -342,6 +378,7 @@ def _stacker(chk):
     _stack_transform_dims(chk)
     _unstack_guarded(chk)
     _unstack_order(chk)
+    _dataset_unstack_scope(chk)
     _dataset_layout(chk)
     # ... and only after the labels along every feature dimension have been compared IN ORDER with the recorded ones
     from .common import ordered_label_comparison
